@@ -123,7 +123,7 @@ def write_evidence(prop, mod, tier, seed, merged, wall, nshards, budget):
         "wall_s": round(wall, 2),
         "violations": len(merged["violations"]),
     }
-    path = os.path.join(VERIF, "evidence", f"{prop}.json")
+    path = os.path.join(os.environ.get("VERIF_OUT", VERIF), "evidence", f"{prop}.json")
     os.makedirs(os.path.dirname(path), exist_ok=True)
     tmp = path + ".tmp"
     with open(tmp, "w") as fh:
